@@ -11,6 +11,7 @@ import (
 	"fmt"
 	"math"
 	"os"
+	"reflect"
 	"strconv"
 	"strings"
 	"testing"
@@ -167,6 +168,15 @@ func RLeq(a, b float64) bool  { return a <= b }
 
 // FloorUF is math.Floor, named so that the uninterpreted-float mode maps it to the same symbol as the code's.
 func FloorUF(x float64) float64 { return math.Floor(x) }
+
+// FieldLen returns len() of the (possibly unexported) slice field `name` of the struct p points to.
+func FieldLen(p interface{}, name string) int {
+	return reflect.ValueOf(p).Elem().FieldByName(name).Len()
+}
+
+// ClockLogLen / ClockAt: the engine's log of every reading of the stubbed clocks on the current path (engine only).
+func ClockLogLen() int     { return 0 }
+func ClockAt(i int) int64 { return 0 }
 
 // Time builds a time.Time from a nanosecond instant (symbolically: the engine's time model).
 func Time(ns int64) time.Time { return time.Unix(0, ns) }
